@@ -155,6 +155,8 @@ def run(tier: str) -> int:
     for c in cases[:: max(1, len(cases) // 3)][:3]:
         s, d = concretize(c, 1)
         ck.sample({"n": c["n"], "prog": c["prog"], "source": s, "expected": expected_text(c)})
+    from . import c13_nested
+    c13_nested.run_nested(ck, tier, rnd)
     ck.assumptions += ["`offset: continue` after a loop that used a negative offset is left unclaimed (DESIGN §6)",
                        "tablerow with cols <= 0 is outside the family"]
     return ck.finish()
